@@ -11,6 +11,7 @@ from runtime.tensor_model import Model, orbital_space, evaluate, all_assignments
 from runtime.c02 import MPModel
 
 BUDGET_S = {"quick": 150, "thorough": 3000}
+CASE_TIMEOUT_S = {"quick": 400, "thorough": 1500}
 _CACHE = {}
 MIN = {"pp": "ph", "ip": "h", "ea": "p", "dip": "hh", "dea": "pp"}
 
